@@ -91,14 +91,16 @@ Qed.
 Section MapU64.
 Variable H : list N -> N.
 Variable f : N.
-(* distinct keys of this map have distinct entry slots; entry slots are valid keys *)
-Hypothesis Hinj : forall kb kb', kb <> kb' -> map_slot H kb f <> map_slot H kb' f.
-Hypothesis Hroom : forall kb, map_slot H kb f < W256.
+(* the keys that occur: distinct ones have distinct entry slots; entry slots are valid slot keys *)
+Variable keys : list N -> Prop.
+Hypothesis Hinj : forall kb kb', keys kb -> keys kb' -> kb <> kb' -> map_slot H kb f <> map_slot H kb' f.
+Hypothesis Hroom : forall kb, keys kb -> map_slot H kb f < W256.
 
 Lemma abs_map_u64 s kb :
+  keys kb ->
   abs_map H 1 false s f kb = option_map (fun x => [wnth 0 x]) (sget s (map_slot H kb f)).
 Proof.
-  unfold abs_map. rewrite read_quads1_eq; [|reflexivity|change (0 / 4) with 0; specialize (Hroom kb); lia].
+  intros Hk. unfold abs_map. rewrite read_quads1_eq; [|reflexivity|change (0 / 4) with 0; specialize (Hroom kb Hk); lia].
   change (0 / 4) with 0. change (0 mod 4) with 0. replace (map_slot H kb f + 0) with (map_slot H kb f) by lia. reflexivity.
 Qed.
 
@@ -106,51 +108,51 @@ Definition mop_u64 (o : mop) : Prop :=
   match o with MInsert _ v | MTryInsert _ v => exists x, v = [x] | _ => True end.
 
 Theorem map_u64_refines s o :
-  mop_u64 o ->
+  mop_u64 o -> keys (mop_key o) ->
   let '(m', out) := spec_map (abs_map H 1 false s f) o in
-  exists s', map_step H 1 false s f o = Ok (s', out) /\ forall kb', abs_map H 1 false s' f kb' = m' kb'.
+  exists s', map_step H 1 false s f o = Ok (s', out) /\ forall kb', keys kb' -> abs_map H 1 false s' f kb' = m' kb'.
 Proof.
-  intros Hop. destruct o as [kb v|kb|kb|kb v]; cbn [spec_map map_step mop_u64] in *.
+  intros Hop Hkey. cbn [mop_key] in Hkey. destruct o as [kb v|kb|kb|kb v]; cbn [spec_map map_step mop_u64] in *.
   - destruct Hop as [x Hx]. subst v. unfold map_insert.
-    pose proof (Hroom kb) as Hr.
+    pose proof (Hroom kb Hkey) as Hr.
     change (write_quads false s (map_slot H kb f) 0 [x]) with (write_u64 s (map_slot H kb f) 0 x).
     rewrite write_u64_eq; [|reflexivity|change (0 / 4) with 0; lia]. cbn [bind].
-    eexists. split; [reflexivity|]. intros kb'. rewrite abs_map_u64. unfold smap_set, wwrite.
+    eexists. split; [reflexivity|]. intros kb' Hk'. rewrite abs_map_u64 by exact Hk'. unfold smap_set, wwrite.
     change (0 / 4) with 0. change (0 mod 4) with 0. replace (map_slot H kb f + 0) with (map_slot H kb f) by lia.
     destruct (bytes_eqb kb' kb) eqn:E.
     + apply bytes_eqb_eq in E. subst kb'. rewrite sget_sset_same. cbn [option_map]. rewrite wnth_wupd_same by lia. reflexivity.
-    + rewrite sget_sset_other; [rewrite abs_map_u64; reflexivity|].
-      apply Hinj. intros E'. subst kb'. assert (bytes_eqb kb kb = true) by (apply bytes_eqb_eq; reflexivity). congruence.
+    + rewrite sget_sset_other; [rewrite abs_map_u64 by exact Hk'; reflexivity|].
+      apply Hinj; [exact Hk'|exact Hkey|]. intros E'. subst kb'. assert (bytes_eqb kb kb = true) by (apply bytes_eqb_eq; reflexivity). congruence.
   - unfold map_get. fold (abs_map H 1 false s f kb).
     assert (Hx : exists r, read_quads 1 false s (map_slot H kb f) 0 = Ok r /\ abs_map H 1 false s f kb = r).
-    { unfold abs_map. rewrite read_quads1_eq; [|reflexivity|change (0 / 4) with 0; specialize (Hroom kb); lia]. eexists. split; reflexivity. }
-    destruct Hx as [r [Hr1 Hr2]]. rewrite Hr1. cbn [bind]. rewrite Hr2. exists s. split; [reflexivity|]. intros kb'. reflexivity.
+    { unfold abs_map. rewrite read_quads1_eq; [|reflexivity|change (0 / 4) with 0; specialize (Hroom kb Hkey); lia]. eexists. split; reflexivity. }
+    destruct Hx as [r [Hr1 Hr2]]. rewrite Hr1. cbn [bind]. rewrite Hr2. exists s. split; [reflexivity|]. intros kb' _. reflexivity.
   - unfold map_remove, clear_quads. cbn [Nat.eqb]. change (8 * N.of_nat 1) with 8.
-    pose proof (Hroom kb) as Hr.
+    pose proof (Hroom kb Hkey) as Hr.
     rewrite slot_calc_u64; [|reflexivity|change (0 / 4) with 0; lia]. cbn [bind].
     change (N.to_nat 1) with 1%nat. cbn [clear_quad]. change (0 / 4) with 0.
     replace (map_slot H kb f + 0) with (map_slot H kb f) by lia.
     assert (Hk : map_slot H kb f <? W256 = true) by (apply N.ltb_lt; exact Hr). rewrite Hk. cbn [bind fst snd].
     rewrite andb_true_r. eexists. split.
-    + f_equal. f_equal. f_equal. rewrite abs_map_u64. destruct (sget s (map_slot H kb f)); reflexivity.
-    + intros kb'. rewrite abs_map_u64. unfold smap_set. destruct (bytes_eqb kb' kb) eqn:E.
+    + f_equal. f_equal. f_equal. rewrite abs_map_u64 by exact Hkey. destruct (sget s (map_slot H kb f)); reflexivity.
+    + intros kb' Hk'. rewrite abs_map_u64 by exact Hk'. unfold smap_set. destruct (bytes_eqb kb' kb) eqn:E.
       * apply bytes_eqb_eq in E. subst kb'. rewrite sget_sclr_same. reflexivity.
-      * rewrite sget_sclr_other; [rewrite abs_map_u64; reflexivity|].
-        apply Hinj. intros E'. subst kb'. assert (bytes_eqb kb kb = true) by (apply bytes_eqb_eq; reflexivity). congruence.
+      * rewrite sget_sclr_other; [rewrite abs_map_u64 by exact Hk'; reflexivity|].
+        apply Hinj; [exact Hk'|exact Hkey|]. intros E'. subst kb'. assert (bytes_eqb kb kb = true) by (apply bytes_eqb_eq; reflexivity). congruence.
   - destruct Hop as [x Hx]. subst v. unfold map_try_insert. cbn [length].
-    pose proof (Hroom kb) as Hr.
+    pose proof (Hroom kb Hkey) as Hr.
     assert (Hx : read_quads 1 false s (map_slot H kb f) 0 = Ok (abs_map H 1 false s f kb)).
     { unfold abs_map. rewrite read_quads1_eq; [|reflexivity|change (0 / 4) with 0; lia]. reflexivity. }
     rewrite Hx. cbn [bind].
     destruct (abs_map H 1 false s f kb) as [e|] eqn:Ea.
-    + exists s. split; [reflexivity|]. intros kb'. reflexivity.
+    + exists s. split; [reflexivity|]. intros kb' _. reflexivity.
     + change (write_quads false s (map_slot H kb f) 0 [x]) with (write_u64 s (map_slot H kb f) 0 x).
       rewrite write_u64_eq; [|reflexivity|change (0 / 4) with 0; lia]. cbn [bind fst snd].
-      eexists. split; [reflexivity|]. intros kb'. rewrite abs_map_u64. unfold smap_set, wwrite.
+      eexists. split; [reflexivity|]. intros kb' Hk'. rewrite abs_map_u64 by exact Hk'. unfold smap_set, wwrite.
       change (0 / 4) with 0. change (0 mod 4) with 0. replace (map_slot H kb f + 0) with (map_slot H kb f) by lia.
       destruct (bytes_eqb kb' kb) eqn:E.
       * apply bytes_eqb_eq in E. subst kb'. rewrite sget_sset_same. cbn [option_map]. rewrite wnth_wupd_same by lia. reflexivity.
-      * rewrite sget_sset_other; [rewrite abs_map_u64; reflexivity|].
-        apply Hinj. intros E'. subst kb'. assert (bytes_eqb kb kb = true) by (apply bytes_eqb_eq; reflexivity). congruence.
+      * rewrite sget_sset_other; [rewrite abs_map_u64 by exact Hk'; reflexivity|].
+        apply Hinj; [exact Hk'|exact Hkey|]. intros E'. subst kb'. assert (bytes_eqb kb kb = true) by (apply bytes_eqb_eq; reflexivity). congruence.
 Qed.
 End MapU64.
